@@ -31,6 +31,7 @@ Cfg == JsonDeserialize(IOEnv.GENCFG)
 (*                                       [un |-> seq of [n, classes, def], bin |-> same,           *)
 (*                                        tup |-> seq of arities]]                                  *)
 (*                            partners |-> default leaf terms used for the other argument positions *)
+(*                            tupclasses |-> (optional) classes of tuples, default <<"-">>]         *)
 Budget == atoi(IOEnv.BUDGET)     \* index into Cfg.budgets (one TLC run per budget)
 B == Cfg.budgets[Budget]
 
@@ -67,14 +68,19 @@ WrapBin ==
     /\ depth' = depth + 1
     /\ UNCHANGED done
 
-(* tuple of arity n with the current term first or last                     *)
+(* tuple of arity n with the current term first or last.  Tuple classes    *)
+(* (optional field of the budget): "-" = every position gets its own       *)
+(* neighbouring value, "eq" = all positions are concretised from the SAME  *)
+(* perturbation, so that equal classes of different leaf types carry equal *)
+(* content (Interned<str> "x" next to Interned<String> "x").               *)
+TupClasses == IF "tupclasses" \in DOMAIN B THEN Range(B.tupclasses) ELSE {"-"}
 WrapTup ==
     /\ ~done /\ depth < B.b
-    /\ \E n \in Range(B.wraps[depth + 1].tup) : \E first \in BOOLEAN :
+    /\ \E n \in Range(B.wraps[depth + 1].tup) : \E first \in BOOLEAN : \E c \in TupClasses :
           LET P == B.partners
               others == [i \in 1..(n - 1) |-> P[((i - 1) % Len(P)) + 1]]
-          IN term' = IF first THEN <<"Tuple", "-", term>> \o others
-                              ELSE <<"Tuple", "-">> \o others \o <<term>>
+          IN term' = IF first THEN <<"Tuple", c, term>> \o others
+                              ELSE <<"Tuple", c>> \o others \o <<term>>
     /\ depth' = depth + 1
     /\ UNCHANGED <<focus, done>>
 
